@@ -1,14 +1,115 @@
 /-
   SpecKitV.Drv.ExtNoiseGens — driver operations of the generated region `NoiseGens` (extension point: `dispatch op` returns
   `some handler` for the operations this file serves).  Mathlib-free.
+
+  `genobj <class> <constructor arguments> <xi : float array> <k> <op_1 n_1> … <op_k n_k>`
+      executes the GENERATED classes (Gen/NoiseGens.lean, translated from speckit/noise.py on every run) at `Float`:
+      the object is built by the generated `__init__` over the stream `xi` of standard-normal draws, then every request is served by the
+      generated method:  `s n` = `get_series(n)`,  `g n` = `n` calls of `get_sample()`.
+      class / constructor arguments:   white fs psd | red fs fmin init | alpha fs fmin fmax alpha init nspec fminvals fmaxvals
+                                       | pink fs fmin fmax init nspec fminvals fmaxvals      (init: 0/1; *vals: float arrays)
+      reply:  `<all returned samples> | <object state after __init__> | <object state after the last request>`
+      state:  white `cur bufn fs rms`;  red `cur bufn fs fmin scaling rms ; a… ; b… ; zi…`;
+              alpha/pink `cur bufn fs alpha fmin fmax scaling rms nspec ; n m a… ; n m b… ; n m zi…`
 -/
 import SpecKitV.Drv.Base
+import SpecKitV.Gen.NoiseGens
 
 namespace Drv.ExtNoiseGens
 open Drv
 
+def readOps : M (List (Bool × Nat)) := do
+  let n ← nat
+  let mut l : List (Bool × Nat) := []
+  for _ in [0:n] do
+    let t ← tok
+    let k ← nat
+    if t != "s" && t != "g" then throw s!"genobj request:{t}"
+    l := (t == "s", k) :: l
+  return l.reverse
+
+def runOps {σ : Type} (series : σ → Nat → Arr Float × σ) (sample : σ → Float × σ) (o : σ) (ops : List (Bool × Nat)) :
+    Array Float × σ := Id.run do
+  let mut out : Array Float := #[]
+  let mut o := o
+  for (isS, k) in ops do
+    if isS then
+      let r := series o k
+      for i in [0:r.1.n] do
+        out := out.push (r.1.get i)
+      o := r.2
+    else
+      for _ in [0:k] do
+        let r := sample o
+        out := out.push r.1
+        o := r.2
+  return (out, o)
+
+def dumpArr (a : Arr Float) : String := joinF ((List.range a.n).map a.get)
+def dumpArr2 (a : Arr2 Float) : String :=
+  s!"{a.n} {a.m} " ++ joinF ((List.range (a.n * a.m)).map (fun k => a.get (k / a.m) (k % a.m)))
+
+def dumpWhite (o : Gen.white_noise Float) : String :=
+  s!"{o._rng.cur} {o._buffer.n} {fmt o._fs} {fmt o._rms}"
+def dumpRed (o : Gen.red_noise Float) : String :=
+  s!"{o._whitenoise._rng.cur} {o._buffer.n} {fmt o._fs} {fmt o._fmin} {fmt o._scaling} {fmt o._whitenoise._rms} ; "
+    ++ dumpArr o._a ++ " ; " ++ dumpArr o._b ++ " ; " ++ dumpArr o._zi
+def dumpAlpha (o : Gen.alpha_noise Float) : String :=
+  s!"{o._whitenoise._rng.cur} {o._buffer.n} {fmt o._fs} {fmt o._alpha} {fmt o._fmin} {fmt o._fmax} {fmt o._scaling} {fmt o._whitenoise._rms} {o._num_spectra} ; "
+    ++ dumpArr2 o._a_coeffs ++ " ; " ++ dumpArr2 o._b_coeffs ++ " ; " ++ dumpArr2 o._zi_states
+
+def opGenObj : M String := do
+  let cls ← tok
+  match cls with
+  | "white" =>
+    let fs ← flt
+    let psd ← flt
+    let xi := fnF (← fltArr)
+    let ops ← readOps
+    let o := Gen.white_noise.__init__ xi fs psd
+    let (out, o') := runOps (Gen.white_noise.get_series xi) (Gen.white_noise.get_sample xi) o ops
+    return joinF out.toList ++ " | " ++ dumpWhite o ++ " | " ++ dumpWhite o'
+  | "red" =>
+    let fs ← flt
+    let fmin ← flt
+    let init ← nat
+    let xi := fnF (← fltArr)
+    let ops ← readOps
+    let o := Gen.red_noise.__init__ xi fs fmin (init != 0)
+    let (out, o') := runOps (Gen.red_noise.get_series xi) (Gen.red_noise.get_sample xi) o ops
+    return joinF out.toList ++ " | " ++ dumpRed o ++ " | " ++ dumpRed o'
+  | "alpha" =>
+    let fs ← flt
+    let fmin ← flt
+    let fmax ← flt
+    let alpha ← flt
+    let init ← nat
+    let nspec ← nat
+    let fminv := arrF (← fltArr)
+    let fmaxv := arrF (← fltArr)
+    let xi := fnF (← fltArr)
+    let ops ← readOps
+    let o := Gen.alpha_noise.__init__ xi fs fmin fmax alpha (init != 0) nspec fminv fmaxv
+    let (out, o') := runOps (Gen.alpha_noise.get_series xi) (Gen.alpha_noise.get_sample xi) o ops
+    return joinF out.toList ++ " | " ++ dumpAlpha o ++ " | " ++ dumpAlpha o'
+  | "pink" =>
+    let fs ← flt
+    let fmin ← flt
+    let fmax ← flt
+    let init ← nat
+    let nspec ← nat
+    let fminv := arrF (← fltArr)
+    let fmaxv := arrF (← fltArr)
+    let xi := fnF (← fltArr)
+    let ops ← readOps
+    let o := Gen.pink_noise.__init__ xi fs fmin fmax (init != 0) nspec fminv fmaxv
+    let (out, o') := runOps (Gen.alpha_noise.get_series xi) (Gen.alpha_noise.get_sample xi) o ops
+    return joinF out.toList ++ " | " ++ dumpAlpha o ++ " | " ++ dumpAlpha o'
+  | _ => throw s!"genobj class:{cls}"
+
 def dispatch (op : String) : Option (M String) :=
   match op with
+  | "genobj" => some opGenObj
   | _ => none
 
 end Drv.ExtNoiseGens
